@@ -19,7 +19,8 @@
         s.<u>  Store     c.<u>  tile38.call     x.<u>  way out     p.<k>  Prune drops k
                                          -> per call  <u>:<mode found or ->:<rw|ro|na|refused> ... | idle interpreters
    globals <n> <op>...                   what borrowers leave in the global tables (Model/LuaGlobals.v over Gen/LuaGlobals.v):
-        b.<u>.<0|1>  borrow (1: returned in Close())   i.<u>.<fn>.<0|1>  one invocation of fn (1: left by an early return)
+        b.<u>.<0|1>  borrow (1: returned in Close())   i.<u>.<fn>.<0|1>[~name=v|~name=nil ...]  one invocation of fn
+                                         (1: left by an early return) and what its Lua code assigns
         r.<u>  return                    -> <interpreter>:<extra global>,... for every idle interpreter that has any | idle
    flush <op>...                         the reply path (Model/ScriptFlush.v over Gen/ReplyFlush.v) on the programs given by `req`:
         s.<u> micro-step   r.<u> netServe writes u's replies   y background flush
@@ -242,19 +243,32 @@ let handle (toks : Stdlib.String.t list) : Stdlib.String.t =
       Stdlib.String.concat "," (Stdlib.List.map (fun x -> string_of_int (int_of_nat x)) p.saved)
   | "globals" :: n :: ops ->
       let coq_string s = string_of_bytes (bytes_of_ocaml s) in
-      let op t = match Stdlib.String.split_on_char '.' t with
+      let rec op t =
+        match Stdlib.String.split_on_char '~' t with
+        | head :: (_ :: _ as assigns) ->
+            (* i.<u>.<fn>.<early>~<name>=v~<name>=nil : what the Lua code of the invocation assigns *)
+            let asg a = match Stdlib.String.split_on_char '=' a with
+              | [nm; "nil"] -> { a_name = coq_string nm; a_nil = true }
+              | nm :: _ -> { a_name = coq_string nm; a_nil = false }
+              | [] -> failwith "bad assignment" in
+            (match op head with
+             | GInvoke (u, fn, early, _) -> GInvoke (u, fn, early, Stdlib.List.map asg assigns)
+             | o -> o)
+        | _ ->
+        match Stdlib.String.split_on_char '.' t with
         | ["b"; u; c] -> GBorrow (nat (int_of_string u), c = "1")
         | "i" :: u :: rest ->
             let rest = Stdlib.List.rev rest in
             (match rest with
-             | early :: fnrev -> GInvoke (nat (int_of_string u), coq_string (Stdlib.String.concat "." (Stdlib.List.rev fnrev)), early = "1")
+             | early :: fnrev -> GInvoke (nat (int_of_string u), coq_string (Stdlib.String.concat "." (Stdlib.List.rev fnrev)), early = "1", [])
              | [] -> failwith "bad invoke")
         | ["r"; u] -> GReturn (nat (int_of_string u))
         | _ -> failwith ("bad globals op " ^ t) in
       let p = grun (ginit (nat (int_of_string n))) (Stdlib.List.map op ops) in
-      let line x = match extras_of p.g_extra x with
+      let line x = match Stdlib.List.map (fun nm -> "+" ^ ocaml_string_of nm) (extras_of p.g_extra x) @
+                           Stdlib.List.map (fun nm -> "-" ^ ocaml_string_of nm) (extras_of p.g_gone x) with
         | [] -> []
-        | l -> [Printf.sprintf "%d:%s" (int_of_nat x) (Stdlib.String.concat "," (Stdlib.List.map ocaml_string_of l))] in
+        | l -> [Printf.sprintf "%d:%s" (int_of_nat x) (Stdlib.String.concat "," l)] in
       Stdlib.String.concat " " (Stdlib.List.concat_map line p.g_idle) ^ " | " ^
       Stdlib.String.concat "," (Stdlib.List.map (fun x -> string_of_int (int_of_nat x)) p.g_idle)
   | "flush" :: ops ->
